@@ -586,6 +586,35 @@ class Robust:
             for k2 in (b"", b"1", b"x", b"-128"):
                 A(out, "api-list", L("api", "list", hexs(k1), hexs(k2)))
 
+        # ---------- XML text values around the buffer steps of lyxml_parse_value: plain runs, CDATA sections, references ----------
+        runs = (0, 1, 23, 24, 25, 100, 127, 128, 129, 150, 300)
+        cds = (0, 1, 100, 127, 128, 129, 130, 200, 300, 1000)
+        for pl in runs:
+            for cl in cds:
+                for lead in (b"", b"&lt;", b"<![CDATA[x]]>", b"&#x41;" + b"q" * 130):
+                    body = lead + b"a" * pl + b"<![CDATA[" + b"b" * cl + b"]]>"
+                    doc = b'<top xmlns="urn:rb"><tag>' + body + b'</tag></top>'
+                    A(out, "xmltext", L("data", "x", PARSE_STRICT, VAL_PRESENT, hexs(doc)))
+                    if lead == b"" or (pl in (25, 129, 300) and cl in (129, 200)):
+                        A(out, "xmltext", L("data", "x", PARSE_OPAQ | PARSE_ONLY, VAL_PRESENT, hexs(b'<u xmlns="urn:none">' + body + b'&amp;' + b"c" * pl + b'</u>')))
+                        A(out, "xmltext-yin", L("yin", hexs(b'<module name="tx" xmlns="urn:ietf:params:xml:ns:yang:yin:1"><namespace uri="urn:tx"/><prefix value="tx"/>'
+                                                          b'<description><text>' + body + b'</text></description></module>')))
+        for pl in (25, 129, 300):
+            for cl in (129, 300):
+                A(out, "xmltext", L("op", "x", "rpc", hexs(b'<op xmlns="urn:rb"><a>' + b"a" * pl + b"<![CDATA[" + b"b" * cl + b"]]></a></op>")))
+                A(out, "xmltext", L("data", "x", PARSE_STRICT, VAL_PRESENT, hexs(b'<top xmlns="urn:rb"><axml>' + b"a" * pl + b"<![CDATA[" + b"b" * cl + b"]]></axml></top>")))
+        # ---------- failing XPath / path calls of every kind: the next unrelated error must not carry anything of them ----------
+        badxp = [b"re-match(/rb:top/rb:name, '(x[0-9]')", b"/rb:top/rb:tag[re-match(., '[a')]", b"re-match(., '\\p{IsNope}')", b"/rb:top/rb:item[re-match(rb:val, ')')]/rb:id",
+                 b"nofunc(1)", b"count()", b"count(1, 2)", b"/nope:top", b"/rb:top/rb:item[nope:id=1]", b"deref(1)", b"derived-from(/rb:types/rb:idref, 'nope:x')",
+                 b"bit-is-set(/rb:types/rb:bits, 1)", b"enum-value(1)", b"substring('a')", b"translate('a', 'b')", b"/rb:top/rb:item[", b"$nope", b"string(/rb:top/rb:name) +",
+                 b"/rb:top/rb:item[position() = 'a' + ]", b"current(1)", b"id()", b"lang()", b"1 div", b"//", b"@", b"/rb:top/rb:item/rb:reset/rb:delay[re-match(., '(')]"]
+        for x in badxp:
+            for e in ("xfind", "xeval", "sxfind"):
+                A(out, "bad-xpath", L(e, hexs(x)))
+            A(out, "bad-xpath", L("fpath", hexs(x)))
+            A(out, "bad-xpath", L("value", "xp", hexs(x)))
+            A(out, "bad-xpath-must", L("yang", hexs(b"module bx {namespace urn:bx; prefix bx; import rb {prefix rb;} leaf l {type string; must " + yang_dq(x) + b";}}")))
+
         # ---------- truncation at every position of small seeds ----------
         small = [("yang", YANG_SEEDS[1]), ("yin", YIN_SEEDS[0][:700]), ("x", XML_SEEDS[0][:300]), ("x", XML_SEEDS[2]), ("j", JSON_SEEDS[1]),
                  ("xp", XPATH_SEEDS[2]), ("xp", XPATH_SEEDS[7]), ("path", PATH_SEEDS[2])]
